@@ -55,15 +55,20 @@ class MetadataGenerator:
         Key and string value converting
         """
         fields = {}
+        self._check_keys(data)
         for key, value in data.items():
+            convert_dict = key not in self.dict_keys_fields
+            fields[key] = self._detect_type(value, convert_dict)
+        return fields
+
+    @staticmethod
+    def _check_keys(data: dict):
+        for key in data:
             if not isinstance(key, str):
                 raise TypeError(f'You are probably using a parser that is not JSON compatible and have data with some {type(key)}s as dict keys. '
                                 f'This is not supported.\n'
                                 f'Context: {data}\n'
                                 f'(If you are parsing yaml, try replacing PyYaml with ruamel.yaml)')
-            convert_dict = key not in self.dict_keys_fields
-            fields[key] = self._detect_type(value, convert_dict)
-        return fields
 
     def _detect_type(self, value, convert_dict=True) -> MetaData:
         """
@@ -100,6 +105,8 @@ class MetadataGenerator:
             if convert_dict:
                 return self._convert(value)
             else:
+                # Dict[str, ...] field: keys are not fields but they still should be strings
+                self._check_keys(value)
                 types = [self._detect_type(item) for item in value.values()]
                 if len(types) > 1:
                     union = DUnion(*types)
